@@ -256,6 +256,13 @@ def check_restart(prop, tier, seed):
                 if i % 2 == 1:
                     c.append("-follower")   # the new leader is a node that served a read as follower before the old leader's last writes
                 procs.append((c, eng, tr, rp))
+            if eng in ("memkv", "tikv"):
+                # one failing answer of the engine's timestamp oracle while the restarted node campaigns (its 1st .. 5th call: the Get and the
+                # Update of the acquisition, the Gets and Updates of the first renewals, which run next to OnStartedLeading)
+                for n in ((2, 3, 4) if quick else (1, 2, 3, 4, 5, 6)):
+                    for rep in range(2 if quick else 4):
+                        tr = os.path.join(d, "lead_%s_tso%d_%d.ndjson" % (eng, n, rep)); rp = os.path.join(d, "lead_%s_tso%d_%d.json" % (eng, n, rep))
+                        procs.append(([binp, "leadrun", "-engine", eng, "-out", tr, "-report", rp, "-fails", "5", "-succ", "2", "-tsofault", str(n)], eng, tr, rp))
         bytrace = {}
         # at most 16 nodes at a time: every run opens its own engine and waits for real election timers
         for lo in range(0, len(procs), 16):
